@@ -103,6 +103,15 @@ type mapobj struct {
 
 type badValue struct{}
 
+// lazyCell is a not-yet-materialised slice element (verifLazySlice).
+type lazyCell struct {
+	gen  value
+	idx  int
+	key  string
+	done bool
+	val  value
+}
+
 func cellIndex(a array, c *value) int {
 	if len(a) == 0 {
 		return -1
